@@ -7,7 +7,7 @@
 From Verif Require Import Base.GoSem Box.BoxGen Box.TableGrid Box.TableGridSpec Box.TableGridProofs
   Box.BoxWf Box.MakeBoxSpec Box.BoxInv Box.TableFixupProofs Box.TableFixupTotal Box.FlexGridProofs Box.InlineInBlockProofs
   Box.BlockInInlineProofs Box.BlockInInlineTotal Box.BoxSim Box.BoxWfProofs Box.BoxTotal Box.ElementsProofs
-  Box.TableGridOverlap Box.TableGridOverlapBox.
+  Box.TableGridOverlap Box.TableGridOverlapBox Box.ElementGen Box.ElementGenProofs.
 From Coq Require Import ZArith List Bool.
 Import ListNotations.
 Open Scope Z_scope.
@@ -241,6 +241,40 @@ Theorem C09_display_none_subtrees_generate_no_box : forall hidden t t',
   no_box_for hidden t = true -> create_anonymous t = Ok t' -> no_box_for hidden t' = true.
 Proof. exact fixup_no_box_for. Qed.
 Print Assumptions C09_display_none_subtrees_generate_no_box.
+
+(* ------------------------------------------------------------------ which elements get boxes *)
+(* Box/ElementGen.v models the control flow of elementToBox that decides which
+   elements get boxes and where they go (box tree / footnote list): the
+   display:none test comes first (build.go:203-206), float: footnote only
+   decides that the boxes of a VISIBLE element move to the footnote list.
+   Element identities are distinct (preorder numbering of the document).
+
+   "display:none subtrees generate no box": no box of the tree and no box of the
+   footnote list belongs to an element of a display:none subtree, whatever its
+   float / footnote-display / position say. *)
+Theorem C09_element_to_box_display_none : forall e, NoDup (all_ids e) ->
+  forall x, In x (hidden_ids e) -> ~ In x (fst (e2b e)) /\ Forall (fun n => ~ In x n) (snd (e2b e)).
+Proof. exact e2b_display_none_no_box. Qed.
+Print Assumptions C09_element_to_box_display_none.
+
+(* exactly the elements outside the display:none subtrees have boxes (up to
+   handleElement, not modelled: a replaced element may generate none) *)
+Theorem C09_element_to_box_visible : forall e x, In x (gen_ids (e2b e)) <-> In x (visible_ids e).
+Proof. exact e2b_ids_visible. Qed.
+Print Assumptions C09_element_to_box_visible.
+
+(* the footnote list: the visible float: footnote elements other than the root,
+   in the order in which they end (Check/C09.v code 13) *)
+Theorem C09_footnote_list : forall e, note_roots (e2b e) = footnote_ids true e.
+Proof. exact e2b_note_roots. Qed.
+Print Assumptions C09_footnote_list.
+
+(* a hidden footnote (elements 2, 3), a visible one (4) holding a nested one (5) *)
+Example C09_example_footnotes :
+  let d := El 0 false false [El 1 false false [El 2 true true [El 3 false false []];
+                                               El 4 false true [El 5 false true []]; El 6 false false []]] in
+  e2b d = ([0; 1; 6], [[5]; [4]]) /\ hidden_ids d = [2; 3] /\ NoDup (all_ids d).
+Proof. split; [reflexivity|split; [reflexivity|]]. repeat constructor; cbn; intuition discriminate. Qed.
 
 (* what remains a statement: the same with position:running() elements in the
    document (the model and the tie handle them: running subtrees are skipped
